@@ -66,6 +66,21 @@ theorem zipLocals_ok {st : State N} :
     simp only [List.zip_cons_cons, List.foldl_cons]
     exact zipLocals_ok ps as _ (fun v m => ha v (by simp [m])) (kvSet_ok hc _ (ha a (by simp)))
 
+theorem bitNot_res (st : State N) (v : Value N) : EResOk st (bitNot v) := by
+  unfold bitNot
+  repeat' split
+  all_goals simp [EResOk, VOk, NotInternal]
+
+theorem zip_kvs_ok {st : State N} : ∀ (ns : List String) (vs : List (Value N)), VsOk st vs → KvsOk st (ns.zip vs)
+  | [], _, _ => by intro kv m; simp at m
+  | _ :: _, [], _ => by intro kv m; simp at m
+  | n :: ns, v :: vs, h => by
+    intro kv m
+    simp only [List.zip_cons_cons, List.mem_cons] at m
+    rcases m with rfl | m
+    · exact h v (by simp)
+    · exact zip_kvs_ok ns vs (fun x mx => h x (by simp [mx])) kv m
+
 section steps
 variable (ev : Frame N → Task N → State N → Res N) (ih : EvWF ev) (hn : NativesWF N) {fr : Frame N} {st : State N}
   (hs : HeapOk st) (hf : FrOk st fr)
@@ -269,10 +284,24 @@ theorem wf_node_str (s : String) : ROk st (stepNode ev fr (.str s) st) := by
   wf_auto
 
 theorem wf_node_var (x : String) : ROk st (stepNode ev fr (.var x) st) := by
-  have hf1 := hf.1
   have hf2 := hf.2
   simp only [stepNode]
-  wf_auto
+  split
+  · rename_i v hv
+    exact ⟨hs, Ext.refl _, localsGet_ok hs hv⟩
+  · split
+    · apply rok_liftE
+      exact ⟨hs, Ext.refl _, getField_ok hs hf2 x⟩
+    · split
+      · split
+        · wf_here
+        · exact ⟨heapOk_nd hs _, ext_nd _ _, by simp [OutOk, VOk]⟩
+      · split
+        · exact ⟨heapOk_nd hs _, ext_nd _ _, by simp [OutOk, NotInternal, stackErr]⟩
+        · split
+          · rename_i v hv
+            exact ⟨heapOk_nd hs _, ext_nd _ _, kvGet_ok hs.2 hv⟩
+          · exact ⟨heapOk_nd hs _, ext_nd _ _, by simp [OutOk, NotInternal]⟩
 
 theorem wf_node_scope (sc : Scope) : ROk st (stepNode ev fr (.scope sc) st) := by
   have hf1 := hf.1
@@ -281,10 +310,12 @@ theorem wf_node_scope (sc : Scope) : ROk st (stepNode ev fr (.scope sc) st) := b
   wf_auto
 
 theorem wf_node_bnot (a : Expr N) : ROk st (stepNode ev fr (.bnot a) st) := by
-  have hf1 := hf.1
-  have hf2 := hf.2
   simp only [stepNode]
-  wf_auto
+  apply rok_bindV
+  · apply ih _ _ _ hs hf; trivial
+  · intro v st1 hs1 he1 hv1
+    apply rok_liftE
+    exact ⟨hs1, Ext.refl _, bitNot_res st1 v⟩
 
 theorem wf_node_lnot (a : Expr N) : ROk st (stepNode ev fr (.lnot a) st) := by
   have hf1 := hf.1
@@ -323,16 +354,60 @@ theorem wf_node_notIn (a b : Expr N) : ROk st (stepNode ev fr (.notIn a b) st) :
   wf_auto
 
 theorem wf_node_index (a b : Expr N) : ROk st (stepNode ev fr (.index a b) st) := by
-  have hf1 := hf.1
-  have hf2 := hf.2
   simp only [stepNode]
-  wf_auto
+  apply rok_bindV
+  · apply ih _ _ _ hs hf; trivial
+  · intro va st1 hs1 he1 hva
+    wf_sat
+    apply rok_bindV
+    · apply ih _ _ _ hs1 ‹_›; trivial
+    · intro vb st2 hs2 he2 hvb
+      wf_sat
+      split
+      · apply rok_liftE
+        exact ⟨hs2, Ext.refl _, getField_ok hs2 ‹_› _⟩
+      · wf_here
+
+theorem wf_callWith (args : List (Expr N)) (self vf : Value N) (hself : VOk st self) (hvf : VOk st vf) :
+    ROk st (callWith ev fr args self vf st) := by
+  unfold callWith
+  split
+  · wf_here
+  · apply rok_bindVals
+    · apply ih _ _ _ hs hf; exact vsOk_nil _
+    · intro vs st2 hs2 he2 hvs
+      wf_sat
+      apply ih _ _ _ hs2 ‹_›
+      exact ⟨‹_›, by simp [isFunction], ‹_›, hvs⟩
+  · apply rok_bindVals
+    · apply ih _ _ _ hs hf; exact vsOk_nil _
+    · intro vs st2 hs2 he2 hvs
+      wf_sat
+      apply ih _ _ _ hs2 ‹_›
+      exact ⟨‹_›, by simp [isFunction], ‹_›, hvs⟩
+  · wf_here
 
 theorem wf_node_call (f : Expr N) (args : List (Expr N)) : ROk st (stepNode ev fr (.call f args) st) := by
-  have hf1 := hf.1
-  have hf2 := hf.2
   simp only [stepNode]
-  wf_auto
+  apply rok_bindRef
+  · apply ih _ _ _ hs hf; trivial
+  · intro self index st1 hs1 he1 hself
+    wf_sat
+    have hg := getField_ok hs1 hself index
+    split
+    · rename_i vf hvf
+      rw [hvf] at hg
+      exact wf_callWith ev ih hn hs1 ‹_› args self vf hself hg
+    · rename_i e he
+      rw [he] at hg
+      exact ⟨hs1, Ext.refl _, hg⟩
+  · intro st1 hs1 he1
+    wf_sat
+    apply rok_bindCallee
+    · apply ih _ _ _ hs1 ‹_›; trivial
+    · intro vf st2 hs2 he2 hvf
+      wf_sat
+      exact wf_callWith ev ih hn hs2 ‹_› args .empty vf (by simp [VOk]) hvf
 
 theorem wf_node_array (es : List (Expr N)) : ROk st (stepNode ev fr (.array es) st) := by
   have hf1 := hf.1
@@ -341,10 +416,19 @@ theorem wf_node_array (es : List (Expr N)) : ROk st (stepNode ev fr (.array es) 
   wf_auto
 
 theorem wf_node_dict (body : List (Expr N)) : ROk st (stepNode ev fr (.dict body) st) := by
-  have hf1 := hf.1
-  have hf2 := hf.2
   simp only [stepNode]
-  wf_auto
+  have ha := heapOk_alloc st (.dict []) hs (by intro v m; simp at m)
+  have he := ext_alloc st (.dict ([] : List (String × Value N)))
+  have hk := kindAt_alloc_new st (.dict ([] : List (String × Value N)))
+  apply ROk.ext he
+  apply rok_bindV
+  · apply ih _ _ _ ha
+    · exact ⟨he _ _ hf.1, by simpa [VOk, kindOf] using hk⟩
+    · simp [TOk, VOk]
+  · intro _ st2 hs2 he2 _
+    refine ⟨hs2, Ext.refl _, ?_⟩
+    simp only [OutOk, VOk]
+    exact he2 _ _ (by simpa [kindOf] using hk)
 
 theorem wf_node_block (body : List (Expr N)) : ROk st (stepNode ev fr (.block body) st) := by
   have hf1 := hf.1
@@ -371,16 +455,31 @@ theorem wf_node_while (c body : Expr N) : ROk st (stepNode ev fr (.while c body)
   wf_auto
 
 theorem wf_node_for (k v : String) (e body : Expr N) : ROk st (stepNode ev fr (.for k v e body) st) := by
-  have hf1 := hf.1
-  have hf2 := hf.2
   simp only [stepNode]
-  wf_auto
+  apply rok_bindV
+  · apply ih _ _ _ hs hf; trivial
+  · intro cv st1 hs1 he1 hcv
+    wf_sat
+    split
+    · split
+      · wf_here
+      · apply ih _ _ _ hs1 ‹_›; exact hcv
+    · split
+      · wf_here
+      · apply ih _ _ _ hs1 ‹_›; exact hcv
+    · wf_here
+    · wf_here
+    · wf_here
 
 theorem wf_node_func (ps us : List String) (body : Expr N) : ROk st (stepNode ev fr (.func ps us body) st) := by
-  have hf1 := hf.1
-  have hf2 := hf.2
   simp only [stepNode]
-  wf_auto
+  apply rok_bindVals
+  · apply ih _ _ _ hs hf; exact vsOk_nil _
+  · intro vs st1 hs1 he1 hvs
+    generalize sortedNames us = names
+    have ha := heapOk_alloc st1 (.fn ps (names.zip vs) body) hs1 (zip_kvs_ok names vs hvs)
+    have hk := kindAt_alloc_new st1 (.fn ps (names.zip vs) body)
+    exact ⟨ha, ext_alloc _ _, by simpa [OutOk, VOk, kindOf] using hk⟩
 
 theorem wf_node_ret (a : Expr N) : ROk st (stepNode ev fr (.ret a) st) := by
   have hf1 := hf.1
@@ -412,6 +511,81 @@ theorem wf_node_try (a b : Expr N) : ROk st (stepNode ev fr (.try a b) st) := by
   simp only [stepNode]
   wf_auto
 
+theorem wf_stepNode (e : Expr N) : ROk st (stepNode ev fr e st) := by
+  cases e
+  · exact wf_node_null ev ih hn hs hf
+  · exact wf_node_num ev ih hn hs hf _
+  · exact wf_node_bool ev ih hn hs hf _
+  · exact wf_node_str ev ih hn hs hf _
+  · exact wf_node_var ev ih hn hs hf _
+  · exact wf_node_scope ev ih hn hs hf _
+  · exact wf_node_bnot ev ih hn hs hf _
+  · exact wf_node_lnot ev ih hn hs hf _
+  · exact wf_node_bin ev ih hn hs hf _ _ _
+  · exact wf_node_and ev ih hn hs hf _ _
+  · exact wf_node_or ev ih hn hs hf _ _
+  · exact wf_node_isIn ev ih hn hs hf _ _
+  · exact wf_node_notIn ev ih hn hs hf _ _
+  · exact wf_node_index ev ih hn hs hf _ _
+  · exact wf_node_call ev ih hn hs hf _ _
+  · exact wf_node_array ev ih hn hs hf _
+  · exact wf_node_dict ev ih hn hs hf _
+  · exact wf_node_block ev ih hn hs hf _
+  · exact wf_node_set ev ih hn hs hf _ _ _
+  · exact wf_node_cond ev ih hn hs hf _ _ _
+  · exact wf_node_while ev ih hn hs hf _ _
+  · exact wf_node_for ev ih hn hs hf _ _ _ _
+  · exact wf_node_func ev ih hn hs hf _ _ _
+  · exact wf_node_ret ev ih hn hs hf _
+  · exact wf_node_brk ev ih hn hs hf
+  · exact wf_node_cont ev ih hn hs hf
+  · exact wf_node_throw ev ih hn hs hf _
+  · exact wf_node_try ev ih hn hs hf _ _
+
+theorem wf_stepExpr (e : Expr N) : ROk st (stepExpr ev fr e st) := by
+  unfold stepExpr
+  split
+  · exact ⟨hs, Ext.refl _, by simp [OutOk, NotInternal, stackErr]⟩
+  · have hs' : HeapOk (st.noteDepth (fr.depth + 1)) := heapOk_nd hs _
+    have hf' : FrOk (st.noteDepth (fr.depth + 1)) { fr with depth := fr.depth + 1 } := ⟨hf.1, hf.2⟩
+    exact ROk.ext (ext_nd st _) (wf_stepNode ev ih hn hs' hf' e)
+
 end steps
+
+/-- **Heap well-formedness is an invariant of evaluation** (given the natives keep it): from a well-formed heap, frame and
+    task, every evaluation ends in a well-formed heap that extends the initial one, with a well-formed outcome that is never
+    an `Err.internal`. -/
+theorem eval_wf (hn : NativesWF N) : ∀ (fuel : Nat), EvWF (eval (N := N) fuel)
+  | 0 => by
+    intro fr t st hs _ _
+    simp only [eval]
+    exact ⟨hs, Ext.refl _, by simp [OutOk, NotInternal]⟩
+  | f + 1 => by
+    have ih : EvWF (eval (N := N) f) := eval_wf hn f
+    intro fr t st hs hf ht
+    cases t <;> simp only [eval]
+    · exact wf_stepExpr _ ih hn hs hf _
+    · exact wf_stepExprs _ ih hn hs hf _ _ ht
+    · exact wf_stepBlock _ ih hn hs hf _ _ ht
+    · exact wf_stepRef _ ih hn hs hf _ _
+    · exact wf_stepWhile _ ih hn hs hf _ _
+    · exact wf_stepForArr _ ih hn hs hf _ _ _ _ ht
+    · exact wf_stepForKeys _ ih hn hs hf _ _ _ _ _ ht
+    · exact wf_stepCall _ ih hn hs hf _ _ _ ht.1 ht.2.1 ht.2.2.1 ht.2.2.2
+    · exact wf_stepIter _ ih hn hs hf _ _ _ _ ht.1 ht.2.1 ht.2.2.1 ht.2.2.2
+
+theorem initState_ok : HeapOk (initState : State N) := by
+  refine ⟨?_, ?_⟩
+  · intro a o h
+    simp only [initState] at h
+    cases a with
+    | zero => simp at h; subst h; intro kv m; simp at m
+    | succ n => simp at h
+  · intro kv m; simp [initState] at m
+
+theorem initFrame_ok : FrOk (initState : State N) initFrame := by
+  refine ⟨?_, ?_⟩
+  · simp [kindAt, initState, initFrame, kindOf]
+  · simp [initFrame, VOk]
 
 end Icinga.C15.Proofs
